@@ -1,4 +1,11 @@
 (* Prop_C12.v — C12 (partial; known findings D12a-c): a panicking raw lock operation.
+   For whole collections (WpF.v, WpFAlgo.v, WpFMain.v — the program logic of Wp.v with a budget of one panicking raw
+   operation): the blocking acquisition (lock / read / write) of a lock, a sorting collection or an owned collection of
+   ANY shape and size, and the destruction of a guard of ANY shape, with the panic at ANY raw-operation index: the panic
+   reaches the caller, only held locks are released, nothing stays held except a lock whose own release panicked, and
+   exactly the lock whose operation panicked is killed (C12_guard_acquire_one_fault, C12_guard_drop_one_fault).
+   The retrying acquisition's unwind handler, the roll-back of the try-acquisitions and the release loop of the scoped
+   calls do NOT satisfy the property: refuted below (D12a-c).
    Proved: at the level of a single lock (every mode, every kind, any world) the operation that panicked kills
    exactly that lock, the panic propagates, and a killed lock refuses: try fails without touching the raw
    lock, a blocking acquisition panics.  For collections the faithful model reproduces the source's unwind
@@ -6,6 +13,7 @@
    one-shot panic at every raw-operation index; three classes of failures are genuine defects of the code
    (refuted below on minimal witnesses, listed in known_findings.txt). *)
 From HL Require Import Base Model Shape Algo Api OpsLemmas Lemmas Check Monitors.
+From HL Require Wp WpAlgo WpF WpFAlgo WpFMain.
 
 (* an operation of the raw lock panics: that lock is killed, the panic reaches the caller, nothing else changes *)
 Theorem C12_fault_kills_that_lock :
@@ -67,6 +75,89 @@ Definition ex12_ok : scen :=
 Example C12_ordered_ok : mon_C12 false ex12_ok (model_obs ex12_ok) = true.
 Proof. vm_compute. reflexivity. Qed.
 
+
+(* ---------------------------------------------------------------- whole collections, every size, every fault position *)
+(* [agreeF t w H F D]: thread t holds exactly H in w; no persistent faults; at most one future one-shot fault if F, none
+   otherwise; the killed locks are exactly D.  [INV F D]: while the fault has not fired no lock is dead. *)
+Theorem C12_guard_acquire_one_fault :
+  forall e lc c m s p t w F D out w',
+  coll e c = Some s -> WpFMain.ordered_alg (alg_of (e_am e) s) = true ->
+  api_prog e lc (AAcquire c m FGuard) = Some p ->
+  WpF.agreeF t w [] F D -> WpFAlgo.INV F D ->
+  run nopw t p w = (out, w') ->
+  let ls := WpAlgo.alg_leaves (alg_of (e_am e) s) in
+  match out with
+  | ODone _ => exists H', Permutation H' (WpAlgo.holds_of m ls) /\ WpF.agreeF t w' H' F D
+  | OPanic => (F = true /\ exists l, In l (locks_of ls) /\ WpF.agreeF t w' [] false [l]) \/ (F = false /\ WpF.agreeF t w' [] false D)
+  | OBlocked => exists pre suf, ls = pre ++ suf /\ suf <> [] /\ exists H', Permutation H' (WpAlgo.holds_of m pre) /\ WpF.agreeF t w' H' F D
+  | OAbort | OFuel => False
+  end.
+Proof. exact WpFMain.guard_acquire_one_fault. Qed.
+
+Theorem C12_guard_drop_one_fault :
+  forall e lc g o p t w H F D out w',
+  (o = AGuardDrop \/ o = AGuardUnlock) -> guard lc = Some g ->
+  api_prog e lc o = Some p ->
+  Permutation H (WpAlgo.holds_of (g_mode g) (gleaves (g_items g))) -> WpF.agreeF t w H F D ->
+  run nopw t p w = (out, w') ->
+  match out with
+  | ODone _ => WpF.agreeF t w' [] F D
+  | OPanic => F = true /\ exists x, In x (gleaves (g_items g)) /\ WpF.agreeF t w' [WpAlgo.hold_of (g_mode g) x] false (snd x :: D)
+  | _ => False
+  end.
+Proof. exact WpFMain.guard_drop_one_fault. Qed.
+
+(* the same on worlds: from any world in which the thread holds nothing, no lock is dead and at most one one-shot fault
+   is pending, a panicking acquisition leaves the thread holding nothing and exactly one lock of the collection dead *)
+Theorem C12_guard_acquire_any_fault_position :
+  forall e lc c m s p t w out w',
+  coll e c = Some s -> WpFMain.ordered_alg (alg_of (e_am e) s) = true ->
+  api_prog e lc (AAcquire c m FGuard) = Some p ->
+  WpFMain.holds_nothing t w -> w_fp w = [] -> length (w_f1 w) <= 1 -> (forall l, w_kill w l = false) ->
+  run nopw t p w = (out, w') ->
+  match out with
+  | OPanic => WpFMain.holds_nothing t w' /\
+              exists l, In l (locks_of (WpAlgo.alg_leaves (alg_of (e_am e) s))) /\ forall l', w_kill w' l' = memb l' [l]
+  | OAbort | OFuel => False
+  | _ => forall l', w_kill w' l' = false
+  end.
+Proof. exact WpFMain.guard_acquire_any_fault_position. Qed.
+
+
+(* a single Mutex / RwLock (or a Poisonable around one), EVERY flavour (lock, try_lock, scoped, scoped_try), closures
+   that may themselves panic, at most one panicking raw operation: a scoped call or a panic leaves nothing held except the
+   lock itself when its own release panicked — it is then dead — and no other lock is ever killed *)
+Theorem C12_single_lock_one_fault :
+  forall e lc c m f s k l p t w F D out w',
+  coll e c = Some s -> alg_of (e_am e) s = AlgLeaf k l ->
+  api_prog e lc (AAcquire c m f) = Some p ->
+  WpF.agreeF t w [] F D ->
+  run nopw t p w = (out, w') ->
+  let h := WpAlgo.hold_of m (k, l) in
+  match out with
+  | ODone _ | OPanic =>
+      exists H' F' D', WpF.agreeF t w' H' F' D' /\
+        (match f with FGuard | FTry => True | _ => H' = [] \/ (H' = [h] /\ memb l D' = true) end) /\
+        (match out with OPanic => H' = [] \/ (H' = [h] /\ memb l D' = true) | _ => True end) /\
+        (D' = D \/ D' = l :: D)
+  | OBlocked => WpF.agreeF t w' [] F D
+  | OAbort | OFuel => False
+  end.
+Proof. exact WpFMain.single_lock_one_fault. Qed.
+
+(* non-vacuity: the hypotheses hold of the world of ex12_ok (a one-shot fault at raw operation 2) once thread 0 has its
+   key, and the acquisition of the 3-lock collection panics there *)
+Example C12_acquire_example :
+  let w := set_keyf (sc_world ex12_ok) 0 true in
+  WpFMain.holds_nothing 0 w /\ w_fp w = [] /\ length (w_f1 w) <= 1 /\
+  exists p w', api_prog (sc_env ex12_ok) (mkt true None) (AAcquire 0 Ex FGuard) = Some p /\
+               run nopw 0 p w = (OPanic, w') /\ map (w_kill w') [0; 1; 2] = [false; false; true] /\
+               map (w_raw w') [0; 1; 2] = [raw_free; raw_free; raw_free].
+Proof.
+  cbn zeta. split; [intros l; split; reflexivity|]. split; [reflexivity|]. split; [cbn; lia|].
+  eexists. eexists. split; [reflexivity|]. vm_compute. auto.
+Qed.
+
 (* KNOWN FINDINGS, refuted on the faithful model (and reproduced on the implementation by the check): *)
 (* D12a: retrying collection, panic in the try of member 2 with first_index = 0: member 1 stays locked *)
 Definition ex12a : scen :=
@@ -106,3 +197,7 @@ Print Assumptions C12_kill_is_forever.
 Print Assumptions C12_refuted_retry_handler.
 Print Assumptions C12_refuted_try_rollback.
 Print Assumptions C12_refuted_scoped_release_loop.
+Print Assumptions C12_guard_acquire_one_fault.
+Print Assumptions C12_guard_drop_one_fault.
+Print Assumptions C12_guard_acquire_any_fault_position.
+Print Assumptions C12_single_lock_one_fault.
